@@ -503,6 +503,10 @@ class AIOKafkaClient:
         """
         partitions = self.cluster.partitions_for_topic(topic)
         if partitions is not None:
+            # Known from a refresh that asked for all topics: keep tracking
+            # it, as refreshes only ask for the tracked topics once there
+            # are any and would drop this one from the cluster metadata.
+            self._topics.add(topic)
             return partitions
 
         # add topic to metadata topic list if it is not there already.
